@@ -104,6 +104,36 @@ def selection_slice(R, auth):
     return None
 
 
+def selection_timing(R, auth, tls, cap_attr):
+    """(the selection reads the live capability map, [(function, what, node)] where it does so BEFORE the TLS upgrade of its caller)"""
+    G = R.graph
+    early = []
+    reads_live = any(isinstance(x, ast.Attribute) and x.attr == cap_attr for x in ast.walk(auth.node)) or any(
+        any(isinstance(x, ast.Attribute) and x.attr == cap_attr for x in ast.walk(R.methods[m].node))
+        for m in G.edges[auth.name] if m in R.methods)
+    sl_ = selection_slice(R, auth)
+    if sl_ is not None:
+        reads = [x for st_ in sl_[1] for x in ast.walk(st_) if (isinstance(x, ast.Attribute) and x.attr == cap_attr) or (
+            isinstance(x, ast.Call) and is_self_call(x) and x.func.attr in R.methods and any(
+                isinstance(y, ast.Attribute) and y.attr == cap_attr for y in ast.walk(R.methods[x.func.attr].node)))]
+        tcalls = self_calls(sl_[0], tls.name)
+        if reads and all((t.lineno, t.col_offset) < (x.lineno, x.col_offset) for t in tcalls for x in reads):
+            reads_live = True
+        elif reads:
+            early.append((sl_[0], sl_[0].qualname, reads[0]))
+    for caller_, h_, hc_, _i in selection_feeders(R, auth):
+        # a helper computing the candidates for the authenticator: it reads the map, and does so after the upgrade
+        if any(isinstance(x, ast.Attribute) and x.attr == cap_attr for x in ast.walk(h_.node)) or any(
+                any(isinstance(x, ast.Attribute) and x.attr == cap_attr for x in ast.walk(R.methods[m].node))
+                for m in G.edges[h_.name] if m in R.methods):
+            tcalls = self_calls(caller_, tls.name)
+            if all((t.lineno, t.col_offset) < (hc_.lineno, hc_.col_offset) for t in tcalls):
+                reads_live = True
+            else:
+                early.append((caller_, h_.qualname, hc_))
+    return reads_live, early
+
+
 def mechanisms(R):
     return sorted(n for n in R.methods if n.startswith("_") and n.endswith("_authentication") and not n.startswith("__"))
 
@@ -515,31 +545,10 @@ def run(ctx):
                                       witness="the session continues with an empty or pre-TLS capability map")
             p_ = getattr(p_, "_parent", None)
     # mechanism selection reads the live map
-    reads_live = any(isinstance(x, ast.Attribute) and x.attr == cap_attr for x in ast.walk(auth.node)) or any(
-        any(isinstance(x, ast.Attribute) and x.attr == cap_attr for x in ast.walk(R.methods[m].node))
-        for m in G.edges[auth.name] if m in R.methods)
-    sl_ = selection_slice(R, auth)
-    if sl_ is not None:
-        reads = [x for st_ in sl_[1] for x in ast.walk(st_) if (isinstance(x, ast.Attribute) and x.attr == cap_attr) or (
-            isinstance(x, ast.Call) and is_self_call(x) and x.func.attr in R.methods and any(
-                isinstance(y, ast.Attribute) and y.attr == cap_attr for y in ast.walk(R.methods[x.func.attr].node)))]
-        tcalls = self_calls(sl_[0], tls.name)
-        if reads and all((t.lineno, t.col_offset) < (x.lineno, x.col_offset) for t in tcalls for x in reads):
-            reads_live = True
-        elif reads:
-            ctx.violation("A6", sl_[0], "selection-before-upgrade", "%s computes the usable mechanisms before the TLS upgrade" % sl_[0].qualname,
-                          node=reads[0], witness="the SASL mechanism is chosen from the capabilities announced before the handshake")
-    for caller_, h_, hc_, _i in selection_feeders(R, auth):
-        # a helper computing the candidates for the authenticator: it reads the map, and does so after the upgrade
-        if any(isinstance(x, ast.Attribute) and x.attr == cap_attr for x in ast.walk(h_.node)) or any(
-                any(isinstance(x, ast.Attribute) and x.attr == cap_attr for x in ast.walk(R.methods[m].node))
-                for m in G.edges[h_.name] if m in R.methods):
-            tcalls = self_calls(caller_, tls.name)
-            if all((t.lineno, t.col_offset) < (hc_.lineno, hc_.col_offset) for t in tcalls):
-                reads_live = True
-            else:
-                ctx.violation("A6", caller_, "selection-before-upgrade", "%s computes the usable mechanisms before the TLS upgrade" % h_.qualname,
-                              node=hc_, witness="the SASL mechanism is chosen from the capabilities announced before the handshake")
+    reads_live, early = selection_timing(R, auth, tls, cap_attr)
+    for fn_, what_, node_ in early:
+        ctx.violation("A6", fn_, "selection-before-upgrade", "%s computes the usable mechanisms before the TLS upgrade" % what_,
+                      node=node_, witness="the SASL mechanism is chosen from the capabilities announced before the handshake")
     if reads_live:
         ctx.holds("A6", "%s reads the capability map at selection time" % auth.qualname)
     else:
